@@ -1,8 +1,171 @@
-(* C17 — Manual edits through update_discretizer are applied coherently. *)
+(* C17 — Manual edits through update_discretizer are applied coherently.
+   Only statements closed by `exact`.  Model: Model/Update.v (update_discretizer on the fitted state
+   of one feature, REPAIRED code: pandas.isna, 'replace' accepts a member, summary per feature),
+   run against the implementation after EVERY edit of every generated history
+   (Model/CheckC17.v, harness/props/c17.py).  Vocabulary: Proofs/UpdateProofs.v
+   (`valid_edit`, `fitted`, `expected_abs`), WF/abs/s_group of C13, coherent/label_at of C04.
+   `tables` are the per-object tables  number -> f"{x:.{n}e}"  (CPython is the oracle). *)
 From AC.Model Require Import Base GroupedList Labels Transform FormatRule Update.
 From AC.Proofs Require Import GroupedListSpec TransformSpec UpdateProofs.
 
+(* a valid edit completes (or only warns: discarded already in kept's group), the order remains a
+   consistent partition, and a fitted state remains fitted — all states, all arguments *)
+Theorem C17_valid_edit_keeps_wf : forall tables st m d k,
+  WF (st_order st) -> st_nan st <> VNaN -> valid_edit st m d k ->
+  (snd (update tables st m d k) = UDone \/ snd (update tables st m d k) = UWarn) /\
+  WF (st_order (fst (update tables st m d k))) /\
+  (fitted tables st -> fitted tables (fst (update tables st m d k))).
+Proof. exact update_preserves_wf. Qed.
+Print Assumptions C17_valid_edit_keeps_wf.
+
+(* mode 'group': the discarded group (or the new modality / the missing value) is prepended to the
+   kept group, the discarded leader leaves the list, every other group is untouched *)
+Theorem C17_group_effect : forall tables st d k,
+  WF (st_order st) -> st_nan st <> VNaN -> valid_edit st MGroup d k ->
+  let g := st_order st in
+  let d' := eff_d st d in
+  let g' := st_order (fst (update tables st MGroup d k)) in
+  get_group g d' <> k ->
+  snd (update tables st MGroup d k) = UDone /\
+  abs g' = expected_abs MGroup g d' k /\
+  keys g' = filter (fun x => negb (val_eqb d' x)) (keys g) /\
+  get g' k = (if mem d' (keys g) then get g d' else [d']) ++ get g k /\
+  (forall x, x <> k -> x <> d' -> get g' x = get g x).
+Proof. exact update_group_effect. Qed.
+Print Assumptions C17_group_effect.
+
+(* mode 'replace' (kept unknown, or a member of discarded's group) only renames: same groups at the
+   same positions, leader d' -> k (an unknown k also joins the group) *)
+Theorem C17_replace_only_renames : forall tables st d k,
+  WF (st_order st) -> st_nan st <> VNaN -> valid_edit st MReplace d k ->
+  let g := st_order st in
+  let d' := eff_d st d in
+  let g' := st_order (fst (update tables st MReplace d k)) in
+  k <> d' ->
+  snd (update tables st MReplace d k) = UDone /\
+  abs g' = map (fun kv => if val_eqb d' (fst kv)
+                          then (k, if mem k (snd kv) then snd kv else k :: snd kv) else kv) (abs g) /\
+  keys g' = map (fun x => if val_eqb d' x then k else x) (keys g).
+Proof. exact update_replace_only_renames. Qed.
+Print Assumptions C17_replace_only_renames.
+
+(* label refresh: after EVERY completed call (valid or not) the state equals the state
+   BaseDiscretizer.fit() / load_discretizer builds from the new order and flags; hence transform,
+   summary and the JSON round trip — functions of order + flags + that table — agree *)
 Theorem C17_labels_refresh_consistent : forall tables st m d k,
   snd (update tables st m d k) = UDone -> fitted tables (fst (update tables st m d k)).
 Proof. exact labels_refresh_consistent. Qed.
 Print Assumptions C17_labels_refresh_consistent.
+
+(* every finite history of valid edits: no call fails, every intermediate and the final state have
+   a well-formed order and are fitted (induction over the history) *)
+Theorem C17_every_history : forall tables es st,
+  WF (st_order st) -> st_nan st <> VNaN -> fitted tables st -> valid_history tables st es ->
+  Forall (good tables) (run_edits tables st es) /\
+  WF (st_order (final_state tables st es)) /\ fitted tables (final_state tables st es).
+Proof. exact update_every_history. Qed.
+Print Assumptions C17_every_history.
+
+(* qualitative features: after 'group', transform sends every member of the discarded AND of the
+   kept group to the label of the kept group's position, members of any other group to their own
+   group's label (C04 applied to the post-edit state) *)
+Theorem C17_transform_after_edit_qualitative : forall tables st d k x i v,
+  WF (st_order st) -> nan_ok st -> st_kind st = Qual -> valid_edit st MGroup d k ->
+  get_group (st_order st) (eff_d st d) <> k ->
+  let g := st_order st in
+  let d' := eff_d st d in
+  let st' := fst (update tables st MGroup d k) in
+  nth_error (keys (st_order st')) i = Some x ->
+  In v (if val_eqb x k then (if mem d' (keys g) then get g d' else [d']) ++ get g k else get g x) ->
+  v <> VNaN ->
+  exists l, label_at (fmt_of tables (st_nan st') (st_order st')) st' i = Some l /\
+            transform_cell st' v = Ok (reinstate st' (OLab l)).
+Proof. exact transform_after_group_qual. Qed.
+Print Assumptions C17_transform_after_edit_qualitative.
+
+(* quantitative features, UPWARD merge of adjacent leaders (d immediately before k, d <= k): the
+   numbers whose first leader >= x was d now go to k, every other number keeps its leader *)
+Theorem C17_quantitative_upward_merge : forall tables st d k pre post,
+  WF (st_order st) -> st_nan st <> VNaN ->
+  quant_leaders st = pre ++ d :: k :: post -> num_le d k = true ->
+  let st' := fst (update tables st MGroup d k) in
+  snd (update tables st MGroup d k) = UDone /\
+  quant_leaders st' = pre ++ k :: post /\
+  get (st_order st') k = get (st_order st) d ++ get (st_order st) k /\
+  forall x,
+    (first_leader x (quant_leaders st) = Some d -> first_leader x (quant_leaders st') = Some k) /\
+    (forall l, l <> d -> first_leader x (quant_leaders st) = Some l ->
+               first_leader x (quant_leaders st') = Some l) /\
+    (first_leader x (quant_leaders st) = None -> first_leader x (quant_leaders st') = None).
+Proof. exact update_quant_upward. Qed.
+Print Assumptions C17_quantitative_upward_merge.
+
+(* ... and transform is that lookup on the refreshed labels, after any completed call *)
+Theorem C17_transform_after_edit_quantitative : forall tables st m d k x l i,
+  let st' := fst (update tables st m d k) in
+  snd (update tables st m d k) = UDone -> WF (st_order st') ->
+  st_kind st = Quant -> nan_ok st -> sentinel st' -> is_num x = true ->
+  first_leader x (quant_leaders st') = Some l ->
+  nth_error (keys (st_order st')) i = Some l ->
+  exists lab, label_at (fmt_of tables (st_nan st') (st_order st')) st' i = Some lab /\
+              transform_cell st' x = Ok (reinstate st' (OLab lab)).
+Proof. exact transform_after_edit_quant. Qed.
+Print Assumptions C17_transform_after_edit_quantitative.
+
+(* O8c (known finding): the same statement is FALSE for a downward merge (kept < discarded):
+   leaders [1;3;5;inf], group(5 -> 3): x = 4 was in 5's interval and lands in inf's group *)
+Theorem C17_downward_merge_refuted :
+  exists tables st d k x pre post,
+    WF (st_order st) /\ fitted tables st /\
+    quant_leaders st = pre ++ k :: d :: post /\ num_le k d = true /\ valid_edit st MGroup d k /\
+    let st' := fst (update tables st MGroup d k) in
+    snd (update tables st MGroup d k) = UDone /\
+    first_leader x (quant_leaders st) = Some d /\
+    first_leader x (quant_leaders st') <> Some k /\
+    lget k (st_lpv st') = Some (LVal (VStr "1.000e+00 < x <= 3.000e+00")) /\
+    transform_cell st' x = Ok (OLab (LVal (VStr "3.000e+00 < x"))).
+Proof. exact downward_merge_refuted. Qed.
+Print Assumptions C17_downward_merge_refuted.
+
+(* O8b (known finding): once NaN is merged into a group, "missing values into an existing group"
+   is refused (AssertionError: __NAN__ not in list) *)
+Theorem C17_nan_regroup_refuted :
+  exists tables st k,
+    WF (st_order st) /\ fitted tables st /\ In k (keys (st_order st)) /\
+    In (st_nan st) (values (st_order st)) /\
+    snd (update tables st MGroup VNaN k) = UAssert.
+Proof. exact nan_regroup_refuted. Qed.
+Print Assumptions C17_nan_regroup_refuted.
+
+(* validity cannot be dropped: a REJECTED call is not atomic (kept appended, labels stale) and the
+   next transform fails *)
+Theorem C17_rejected_edit_can_break_refuted :
+  exists tables st d k,
+    WF (st_order st) /\ fitted tables st /\
+    let st' := fst (update tables st MGroup d k) in
+    snd (update tables st MGroup d k) = UAssert /\ ~ fitted tables st' /\
+    transform_col st [VNum 4] = Ok [OLab (LVal (VStr "1.000e+00 < x <= 5.000e+00"))] /\
+    transform_col st' [VNum 4] = InternalErr.
+Proof. exact rejected_edit_can_break. Qed.
+Print Assumptions C17_rejected_edit_can_break_refuted.
+
+(* the decidable form of `valid_edit` / `valid_history` used for concrete histories is sound *)
+Theorem C17_valid_history_decidable_sound : forall tables es st,
+  valid_history_b tables st es = true -> valid_history tables st es.
+Proof. exact valid_history_b_sound. Qed.
+Print Assumptions C17_valid_history_decidable_sound.
+
+(* non-vacuity: a concrete fitted state and a valid history (string edit, NaN edit, fresh modality,
+   'replace' by a member and by a fresh name) satisfying every hypothesis above *)
+Example C17_nonvacuous :
+  let st := fitted_state_auto Qual (of_list [VStr "a"; VStr "b"; VStr "c"; VStr "__NAN__"])
+              (VStr "__NAN__") (VStr "__OTHER__") false OStr [] in
+  let es := [mkEdit MGroup (VStr "a") (VStr "b"); mkEdit MGroup VNaN (VStr "c");
+             mkEdit MGroup (VStr "zz") (VStr "c"); mkEdit MReplace (VStr "b") (VStr "a");
+             mkEdit MReplace (VStr "c") (VStr "C")] in
+  WF (st_order st) /\ st_nan st <> VNaN /\ fitted [] st /\ valid_history [] st es /\
+  map snd (run_edits [] st es) = [UDone; UDone; UDone; UDone; UDone] /\
+  abs (st_order (final_state [] st es))
+    = [(VStr "a", [VStr "a"; VStr "b"]); (VStr "C", [VStr "C"; VStr "zz"; VStr "__NAN__"; VStr "c"])] /\
+  transform_cell (final_state [] st es) VNaN = Ok (OLab (LVal (VStr "C"))).
+Proof. exact nonvacuous_example. Qed.
